@@ -589,7 +589,7 @@ def _sig_source(S) -> str:
     return "def f(" + ", ".join(parts) + "): return 1"
 
 
-def validate_model(chk: Check, rng: common.Rng, n: int) -> None:
+def validate_model(chk: Check, rng: common.Rng, n: int, driver=None) -> None:
     """`binds` against (1) real calls of synthesised functions — must agree exactly — and
     (2) inspect.Signature.bind — may be stricter only for positional-only names by keyword + **kwargs."""
     cases, lines = [], []
@@ -618,7 +618,7 @@ def validate_model(chk: Check, rng: common.Rng, n: int) -> None:
                 insp = False
             cases.append((S, npos, kws, real, insp))
             lines.append(f"B {_enc_sig(S, tab)} ; {npos} " + " ".join(str(tab[k]) for k in kws))
-    ans = common.run_driver("C19", lines)
+    ans = (driver or (lambda ls: common.run_driver("C19", ls)))(lines)
     bad, diverge = [], 0
     for (S, npos, kws, real, insp), a in zip(cases, ans):
         m = a == "1"
@@ -640,7 +640,7 @@ def validate_model(chk: Check, rng: common.Rng, n: int) -> None:
         raise RuntimeError(f"binding model disagrees with real Python calls: {bad[:5]}")
 
 
-def validate_live(chk: Check, live: dict) -> int:
+def validate_live(chk: Check, live: dict, driver=None) -> int:
     """The model on every representative form of every live pair vs the live Signature objects."""
     tab = live["names"]
     tab2 = dict(tab)
@@ -655,7 +655,7 @@ def validate_live(chk: Check, live: dict) -> int:
             lines.append(f"F {_enc_sig(p['O'], tab)} ; {_enc_sig(p['W'], tab)} ; {n} " +
                          " ".join(str(tab2[k]) for k in kw))
             cases.append((p, n, kw))
-    ans = common.run_driver("C19", lines)
+    ans = (driver or (lambda ls: common.run_driver("C19", ls)))(lines)
     bad = []
     for (p, n, kw), a in zip(cases, ans):
         real = []
@@ -755,10 +755,49 @@ def probe_function_plugin() -> dict:
     return out
 
 
+class _NullCheck:
+    def count(self, *a, **k): pass
+    def add(self, *a, **k): pass
+    def info(self, *a, **k): pass
+    def log(self, *a, **k): pass
+
+
+class OneShotDriver:
+    """The three users of the Lean driver run twice: a recording pass collects their request lines, ONE
+    `lean --run` invocation answers all of them, the second pass consumes the answers (request generation is
+    deterministic: same PRNG state, same live table)."""
+
+    def __init__(self):
+        self.recording = True
+        self.requests: list[list[str]] = []
+        self.answers: list[list[str]] = []
+
+    class _Stop(Exception):
+        pass
+
+    def __call__(self, lines):
+        if self.recording:
+            self.requests.append(list(lines))
+            raise OneShotDriver._Stop()
+        want = self.requests.pop(0)
+        if want != list(lines):
+            raise RuntimeError("driver requests changed between the recording and the judging pass")
+        return self.answers.pop(0)
+
+    def flush(self):
+        flat = [l for r in self.requests for l in r]
+        ans = common.run_driver("C19", flat)
+        i = 0
+        for r in self.requests:
+            self.answers.append(ans[i:i + len(r)])
+            i += len(r)
+        self.recording = False
+
+
 # ----------------------------------------------------------------------------- the check
 
 
-def _forms_from_driver(live: dict) -> None:
+def _forms_from_driver(live: dict, driver=None) -> None:
     """allUncovered of every distinct pair through the Lean driver (names decoded)."""
     tab = live["names"]
     inv = {v: k for k, v in tab.items()}
@@ -766,8 +805,8 @@ def _forms_from_driver(live: dict) -> None:
     for p in live["pairs"]:
         firsts.setdefault(p["row"], p)
     rows = sorted(firsts)
-    ans = common.run_driver("C19", [f"A {_enc_sig(firsts[r]['O'], tab)} ; {_enc_sig(firsts[r]['W'], tab)}"
-                                    for r in rows])
+    ans = (driver or (lambda ls: common.run_driver("C19", ls)))(
+        [f"A {_enc_sig(firsts[r]['O'], tab)} ; {_enc_sig(firsts[r]['W'], tab)}" for r in rows])
     by_row = {}
     for r, a in zip(rows, ans):
         a = a.strip()
@@ -864,12 +903,23 @@ def run(chk: Check) -> None:
     proved = chk.prove(MODS, checker=thorough)
     chk.log(f"extraction {round(t1 - chk.t0, 1)} s, Lean build+audit {round(time.time() - t1, 1)} s")
 
-    # ---- the model against Python itself and against the live signature objects
-    validate_model(chk, rng, 750 if not thorough else 8000)
-    validate_live(chk, live)
-
-    # ---- uncovered forms (Lean driver) and agreement with the flags in Gen
-    _forms_from_driver(live)
+    # ---- the model against Python itself and against the live signature objects; uncovered forms
+    #      (one Lean driver invocation for all three)
+    drv = OneShotDriver()
+    n_val = 750 if not thorough else 8000
+    steps = [lambda: validate_model(chk_or_null[0], common.Rng(chk.seed), n_val, drv),
+             lambda: validate_live(chk_or_null[0], live, drv),
+             lambda: _forms_from_driver(live, drv)]
+    chk_or_null = [_NullCheck()]
+    for st in steps:                       # recording pass
+        try:
+            st()
+        except OneShotDriver._Stop:
+            pass
+    drv.flush()
+    chk_or_null[0] = chk
+    for st in steps:                       # judging pass
+        st()
     flag_mismatch = [p["target"] for p in pairs if bool(p["forms"]) != (p["flag_py"] is not None)]
     if flag_mismatch:
         proved = False
